@@ -9,6 +9,7 @@ import (
 	"fmt"
 	"os"
 	"path/filepath"
+	"reflect"
 	"strings"
 	"testing"
 	"time"
@@ -342,6 +343,39 @@ func c19Config(u *vfUnit) {
 			if !bytes.Equal(got, wantBody) {
 				u.Violation("config-invalid-changed:"+kind.String(), fmt.Sprintf("after rejected SetSFTPExtensions calls, %s sent VERSION %x, expected unchanged %x", kind, vfTrimB(got, 200), vfTrimB(wantBody, 200)), map[string]any{"configured": names})
 			}
+		}
+	}
+	// a name given more than once: the set of advertised names is still the set of configured names, and an
+	// invalid name behind a repeated one is still an invalid request
+	for _, req := range [][]string{
+		{"hardlink@openssh.com", "hardlink@openssh.com", "posix-rename@openssh.com"},
+		{"statvfs@openssh.com", "posix-rename@openssh.com", "statvfs@openssh.com", "hardlink@openssh.com"},
+		{"posix-rename@openssh.com", "posix-rename@openssh.com"},
+	} {
+		u.Eval("config-with-repeats")
+		if err := SetSFTPExtensions(req...); err != nil {
+			continue // refusing repeats is a choice; then nothing must have changed (checked by the next round of the loop)
+		}
+		wantSet := map[string]bool{}
+		for _, n := range req {
+			wantSet[n] = true
+		}
+		for _, kind := range []vfKind{vfOS, vfRS} {
+			got, perr := vfParse(c19VersionBytes(u, kind), true)
+			gotSet := map[string]bool{}
+			for _, e := range got.Exts {
+				gotSet[e[0]] = true
+			}
+			if perr != nil || !reflect.DeepEqual(gotSet, wantSet) {
+				u.Violation("config-repeats:"+kind.String(), fmt.Sprintf("SetSFTPExtensions(%q) accepted; %s advertises %v (%v)", req, kind, got.Exts, perr), nil)
+			}
+		}
+		bad := append(append([]string(nil), req...), "nosuch@example.com")
+		before := c19VersionBytes(u, vfOS)
+		if err := SetSFTPExtensions(bad...); err == nil {
+			u.Violation("config-invalid-accepted", fmt.Sprintf("SetSFTPExtensions(%q) succeeded", bad), nil)
+		} else if after := c19VersionBytes(u, vfOS); !bytes.Equal(before, after) {
+			u.Violation("config-invalid-changed:Server", fmt.Sprintf("rejected SetSFTPExtensions(%q) changed the VERSION packet", bad), nil)
 		}
 	}
 	// a real client sees exactly the configured extensions
